@@ -27,7 +27,7 @@ RULE = ('G-ev programs (large constant sub-DAGs, constants behind Guard/loops, p
 ASSUMPTIONS = ['shadow numpy interpreter and a fresh compile per call are the reference',
                'returned arrays that share memory with a caller-owned argument are not poisoned (aliasing an argument is not a purity violation)']
 BUDGET_S = {'quick': 110, 'thorough': 1500}
-NCASES = {'quick': 1300, 'thorough': 40000}
+NCASES = {'quick': 4000, 'thorough': 60000}
 CHUNK = 25
 CONFIGS = [('default', True, True), ('raw', False, False), ('simplify', True, False), ('optimize', False, True)]
 
